@@ -53,6 +53,10 @@ def ledger_rule_cases(conn):
                  'SELECT position.units.number.x', 'SELECT cost(position).nope', 'SELECT date.year',
                  'SELECT open.nope FROM #accounts', 'SELECT amount.nope FROM #prices'):
         add('unknown-attribute', text)
+    for text in ('SELECT meta()', "SELECT meta('a', 'b')", "SELECT entry_meta('k', 1)", 'SELECT any_meta()', 'SELECT meta(1)',
+                 "SELECT meta('k', nope)", "SELECT entry_meta('k', nofunc(1))", "SELECT any_meta('a', 'b', 'c')", 'SELECT entry_meta(date)',
+                 "SELECT account FROM meta() = 1", "SELECT open_meta()", "SELECT commodity_meta(1, 2)"):
+        add('unknown-function-or-arity', text)
     for text in ("SELECT account['x']", "SELECT position['x']", "SELECT tags['x']", "SELECT meta['a']['b']",
                  "SELECT entry['x']"):
         add('not-subscriptable', text)
